@@ -87,12 +87,12 @@ func stripInline(name string) (string, string) {
 // TopRow is a parsed line of -top / -text.
 type TopRow struct {
 	Row
-	FlatS, CumS         string
-	FlatPct, SumPct     string
-	CumPct              string
-	Inline              string
-	FlatF, CumF         float64
-	FlatUnit, CumUnit   string
+	FlatS, CumS       string
+	FlatPct, SumPct   string
+	CumPct            string
+	Inline            string
+	FlatF, CumF       float64
+	FlatUnit, CumUnit string
 }
 
 // ParseTop parses the text report. Rows are in output order.
